@@ -42,7 +42,7 @@ const (
 )
 
 // DefaultTargets are the packages (relative to the module root) that are rewritten.
-var DefaultTargets = []string{"service", "service/metrics", "net", "prometheus", "ipinfo", "cmd/outline-ss-server"}
+var DefaultTargets = []string{"internal/slicepool", "service", "service/metrics", "net", "prometheus", "ipinfo", "cmd/outline-ss-server"}
 
 type Config struct {
 	Repo    string   // /repo
